@@ -255,7 +255,8 @@ def search(seed=0, reduced=False):
                 o.solve_time = 0.05
                 run(fresh_device(lam=0.6), o, f, c)
                 compare("applied-potential and current objects reused after a run on another device", run(fresh_device(), _mk_options(tdgl, os.path.join(td, "p_main.h5")), f, c))
-            guarded("parameters reused", h_params)
+            if not reduced:
+                guarded("parameters reused", h_params)
 
         # ---- post-processing: the same request twice / after other requests gives the same answer; non-default units
         def h_post():
